@@ -117,6 +117,25 @@ class Spec:
                     if v:
                         return [(c + "-probe", "after power cycle of %s, sender %s fn=%d: %s"
                                  % ([m.trx[k].d.name for k in cyc], t.d.name, fn, msg)) for c, msg in v]
+        # third phase: new hopping parameters while running, then the *same* frame number again (whatever a
+        # transceiver remembers about "the current frame" must not outlive its hopping configuration)
+        for i in [i for i, t in enumerate(m.trx) if t.running and t.ready][:2]:
+            for k, fhv in enumerate((0, 2, 1)):
+                v = W.ctrl(i, fh_cmd(fhv))
+                if v:
+                    return [(v[0][0] + "-probe", "re-SETFH of %s: %s" % (m.trx[i].d.name, v[0][1]))]
+                for j, t in enumerate(m.trx):
+                    if not t.running or not t.ready:
+                        continue
+                    # (the frame order alternates, so that the first frame after a SETFH is the last one before it)
+                    for fn in ((self.fns[-1], self.fns[1]) if k % 2 == 0 else (self.fns[1], self.fns[-1])):
+                        v = W.burst(j, fn, tn=(fn + j) % 8, pwr=j)
+                        v += W.handler_tick(fn)
+                        W.nprobe += 1
+                        deliveries += len(W.last_out)
+                        if v:
+                            return [(c + "-probe", "after re-SETFH #%d (%s) of %s without power cycle, sender %s fn=%d again: %s"
+                                     % (k + 1, fh_cmd(fhv), m.trx[i].d.name, t.d.name, fn, msg)) for c, msg in v]
         W.outcome = deliveries
         return vs
 
